@@ -1858,6 +1858,11 @@ func (p *scionPacketProcessor) processOHP() disposition {
 		// TODO parameter problem -> invalid path
 		return errorDiscard("error", errMalformedPath)
 	}
+	// As in process(): a packet whose PayloadLen disagrees with the bytes that follow the header
+	// must not be forwarded (the slow path does not answer one-hop packets; it drops the request).
+	if disp := p.validatePktLen(); disp != pForward {
+		return disp
+	}
 
 	// OHP leaving our IA
 	if p.ingressFromLink == 0 {
